@@ -31,6 +31,7 @@ from ..errors import InvalidRangeName
 from ..cell import Cell, RangesAssembler, Ref, CellWrapper, InvRangesAssembler
 from ..tokens.operand import XlError, _re_sheet_id, _re_build_id
 from ..functions.text import HexValue
+from ..functions import COMPILING
 
 log = logging.getLogger(__name__)
 BOOK = sh.Token('Book')
@@ -595,6 +596,21 @@ class ExcelModel:
         }
 
         res = dsp()
+
+        # Volatile cells and their dependants are evaluated at each call.
+        stack, volatile, succ = [], set(), dsp.dmap.succ
+        for k, node in dsp.function_nodes.items():
+            try:
+                if COMPILING in node['function'].func.dsp.nodes:
+                    stack.append(k)
+            except AttributeError:
+                pass
+        while stack:
+            k = stack.pop()
+            if k not in volatile:
+                volatile.add(k)
+                stack.extend(succ[k])
+        res = {k: v for k, v in res.items() if k not in volatile}
 
         dsp = dsp.get_sub_dsp_from_workflow(
             outputs, graph=dsp.dmap, reverse=True, blockers=res,
